@@ -607,6 +607,15 @@ func harvestPayload(p PayloadCreator, args *harvestArgs, duc dataUsageController
 	// If we receive an error, the data was not stored into the collector
 	addDataUsage(duc.duc, cmd.Name, 0, len(reply.Body))
 
+	if args.blocking {
+		// Final harvest before exit: the processor loop has already stopped,
+		// so nothing receives from harvestErrorChannel any more (and there is
+		// no next harvest to carry the data over to). Handing the error over
+		// would block CleanExit for ever.
+		log.Warnf("final harvest for run id %q: %s failed: %v", args.id, cmd.Name, reply.Err)
+		return
+	}
+
 	args.harvestErrorChannel <- HarvestError{
 		Reply: reply,
 		id:    args.id,
